@@ -1,19 +1,41 @@
 """C07 — power operator follows the documented cpow rules (DESIGN 7/C07)."""
-import os, json, math
+import os, json, math, time, sys
+
+
+def _t(ctx, label):
+    if os.environ.get("C07_TIMING"):
+        sys.stderr.write("[C07 %.1fs] %s\n" % (time.time() - ctx.t0, label))
 import cybuild, framework
 
 TITLE = "Power operator follows the documented cpow rules"
 EXTRACTS = ["IntPow"]
 RULE = ("(C type, base, exponent) triples for the integer helper: all exponents -3..70 x boundary/PRNG bases per type; "
         "2**n object fast path on a boundary set of n; result-type matrix (operand types x exponent kinds x cpow) "
-        "dumped via cython.typeof from the running compiler; distinct by (function, operands)")
+        "dumped via cython.typeof from the running compiler; destination rule: one generated function per (cpow unset/True/False "
+        "x set by decorator/with-block/header, operand class incl. C int widths, float/double, double complex, object, constant bases, "
+        "exponent kind incl. negative/non-negative/integral-float/fractional constants and run-time int/unsigned/float/complex/object, "
+        "destination: none, inferred local, C int/long, C double/float, double complex, object by assignment, typed cdef return, "
+        "C argument, cast, C arithmetic) - analysed tree dumped (type of the power node, compile error, fallback warning) and "
+        "accepted functions run on boundary operand values; distinct by (function, operands)")
 EXPLANATION = ("theorems: __Pyx_pow_<T>(b,e) = b^e reduced mod 2^w for every width/signedness/base/exponent>=0 (exact when it "
                "fits), 0 for negative exponents, loop terminates; 2**n fast path = 2^n with defined shifts; the compiler's "
-               "result-type table (regenerated each run) lies inside the documented cpow table (finite, by computation). "
-               "partial: float/complex pow is libm's pow()/cpow(), compared differentially only.")
+               "result-type table (regenerated each run) lies inside the documented cpow table (finite, by computation); "
+               "destination rule (PowNode.compute_c_result_type + coerce_to): model = documented rule for all settings/operand "
+               "classes/exponent kinds/destinations, an explicit cpow value is never re-typed by the destination, unset = False "
+               "except the warned direct-C-real fallback, under explicit False C semantics only reach a destination where they "
+               "coincide with Python's and a non-real soft-complex value raises TypeError; the table dumped from the analysed tree "
+               "of the running compiler equals the documented function on every row (finite, by computation). "
+               "partial: float/complex pow is libm's pow()/cpow(), compared differentially only; casts of complex/soft-complex "
+               "powers and typed in-place **= are not described by the model.")
 TRUSTED = ["libm pow/powf and C99 cpow (not modelled)", "cython.typeof as the observer of the result type",
-           "the documented table transcribed by hand in Model/M_PowDoc.v"]
-ASSUMPTIONS = ["LP64", "signed overflow in the integer helper is UB in C: compared only where b^e fits or the type is unsigned"]
+           "the documented table transcribed by hand in Model/M_PowDoc.v",
+           "the analysed tree (type of the PowNode after AnalyseExpressionsTransform, error/warning lines mapped to functions) as the "
+           "observer of the destination rule; run-time values confirm it on accepted functions",
+           "the unset-directive fallback (comment in PowNode.coerce_to: direct assignment to a C int/float is treated as cpow=True, "
+           "with a level-0 warning) is taken as specified although the user guide only documents default=False"]
+ASSUMPTIONS = ["LP64", "signed overflow in the integer helper is UB in C: compared only where b^e fits or the type is unsigned",
+               "operand classes stand for their members: C int widths short/int/long, unsigned int/long, float/double, double complex, "
+               "object / Python int annotation, int and float constants as bases"]
 
 A = [("int", "int", "AInt"), ("long", "long", "AInt"), ("unsigned int", "uint", "AUInt"), ("short", "short", "AInt"),
      ("unsigned long", "ulong", "AUInt"), ("float", "float", "AFloat"), ("double", "double", "AFloat")]
@@ -65,14 +87,319 @@ def dump_table(workdir):
     return out
 
 
+# ------------------------------------------------------------------------------------------------
+# destination (coercion) rule: PowNode.compute_c_result_type + PowNode.coerce_to
+# One generated cdef function per (cpow setting x how it is set, type of a, kind of b, destination x
+# coercion context).  The analysed tree of the running compiler is dumped (type of the PowNode,
+# compile errors and the fallback warning per function) -> Gen_Pow.pow_crows; accepted functions are
+# also built and run.
+C_A = [("short", "short", "AInt"), ("int", "int", "AInt"), ("long", "long", "AInt"), ("unsigned int", "uint", "AUInt"),
+       ("unsigned long", "ulong", "AUInt"), ("float", "float", "AFloat"), ("double", "double", "AFloat"),
+       ("double complex", "dcplx", "AComplex"), ("object", "obj", "AObj"), ("pyint", "pyint", "AObj"),
+       # constant bases (op1_is_definitely_positive through constant_result); the parameter `a` is unused
+       # (negative constant bases are left out: their constant nodes are re-typed with the power and the unset
+       #  fallback then does not recognise them - see the report; not part of the documented table)
+       ("int", "cpos3", "APosIntConst"), ("double", "cpos2f", "APosFloat")]
+C_ACONST = {"cpos3": ("3", [3]), "cpos2f": ("2.0", [2.0])}
+C_BC = [("negc", "-2", "BNegIntConst"), ("negc1", "-1", "BNegIntConst"), ("posc", "3", "BNonNegIntConst"),
+        ("zeroc", "0", "BNonNegIntConst"), ("negfc", "-2.0", "BIntegralFloatConst"), ("posfic", "2.0", "BIntegralFloatConst"),
+        ("posfc", "2.5", "BFloatConst"), ("halfc", "0.5", "BFloatConst"), ("nhalfc", "-0.5", "BFloatConst"),
+        ("cplxc", "2j", "BComplexConst")]
+C_BT = [("int", "int", "BRuntimeSignedInt"), ("long", "long", "BRuntimeSignedInt"), ("unsigned int", "uint", "BRuntimeUnsignedInt"),
+        ("unsigned char", "uchar", "BRuntimeUnsignedInt"), ("double", "double", "BRuntimeFloat"), ("float", "float", "BRuntimeFloat"),
+        ("double complex", "dcplx", "BRuntimeComplex"), ("object", "obj", "BObj")]
+# (name, C type, context, model destination)
+C_D = [("none", None, "expr", "DNone"), ("none", None, "infer", "DNone"),     # infer: untyped local, type inference
+       ("int", "int", "assign", "DCInt"), ("long", "long", "assign", "DCInt"),
+       ("double", "double", "assign", "DCFloat"), ("float", "float", "assign", "DCFloat"),
+       ("dcplx", "double complex", "assign", "DCComplex"), ("obj", "object", "assign", "DPyObj"),
+       ("int", "int", "ret", "DCInt"), ("double", "double", "ret", "DCFloat"),
+       ("int", "int", "carg", "DCInt"), ("double", "double", "carg", "DCFloat"),
+       ("int", "int", "cast", "DCastInt"), ("double", "double", "cast", "DCastFloat"),
+       ("int", "int", "arith", "DArithInt"), ("double", "double", "arith", "DArithFloat")]
+C_CFG = [("CUnset", None, "unset"), ("CTrue", True, "deco"), ("CFalse", False, "deco"), ("CTrue", True, "with"),
+         ("CFalse", False, "with"), ("CTrue", True, "header"), ("CFalse", False, "header")]
+Q_A = {"int", "uint", "double", "dcplx", "obj", "cpos3", "cpos2f"}
+Q_B = {"negc", "posc", "posfic", "halfc", "cplxc", "rint", "ruint", "rdouble", "rdcplx", "robj"}
+Q_D_SMALL = {("none", "expr"), ("int", "assign"), ("double", "assign"), ("dcplx", "assign"), ("obj", "assign")}
+
+
+def _arg(t, n):
+    if t == "object":
+        return n
+    if t == "pyint":
+        return "%s: int" % n
+    return "%s %s" % (t, n)
+
+
+def coerce_funcs(ccls, cp, how, quick):
+    """-> list of dict(fn, sig, src lines ...): `cdef object fn(args)` with the power expression in
+    the given coercion context; identical text in the dump module and in the run-time module"""
+    out = []
+    tag = {"CUnset": "u", "CTrue": "t", "CFalse": "f"}[ccls] + how[0]
+    for at, an, ak in C_A:
+        if quick and an not in Q_A:
+            continue
+        bs = [(n, v, k, None) for n, v, k in C_BC] + [("r" + n, "b", k, t) for t, n, k in C_BT]
+        for bn, bv, bk, bt in bs:
+            if quick and bn not in Q_B:
+                continue
+            if an in C_ACONST and bt is None:
+                continue          # constant ** constant is folded before analysis: no power node left
+            for dn, dt, cx, dcls in C_D:
+                if quick and how in ("with", "header") and (dn, cx) not in Q_D_SMALL:
+                    continue
+                fn = "k_%s_%s_%s_%s_%s" % (tag, an, bn, dn, cx)
+                args = _arg(at, "a") + ("" if bt is None else ", " + _arg(bt, "b"))
+                e = "%s ** %s" % (C_ACONST.get(an, ("a",))[0], bv)
+                deco = ["@cython.cpow(%s)" % cp] if how == "deco" else []
+                wth = ["with cython.cpow(%s):" % cp] if how == "with" else None
+                L = []
+                if cx == "ret":
+                    body = ["return %s" % e]
+                    if wth:
+                        body = wth + ["    " + b for b in body]
+                    L += deco + ["cdef %s h%s(%s):" % (dt, fn, args)] + ["    " + b for b in body]
+                    L += ["cdef object %s(%s):" % (fn, args), "    return h%s(a%s)" % (fn, "" if bt is None else ", b")]
+                else:
+                    pre = []
+                    if cx == "expr":
+                        body = ["return %s" % e]
+                    elif cx == "infer":
+                        body = ["r = %s" % e, "return r"]
+                    elif cx == "assign":
+                        pre, body = ["cdef %s r" % dt], ["r = %s" % e, "return r"]
+                    elif cx == "carg":
+                        body = ["return id_%s(%s)" % (dn, e)]
+                    elif cx == "cast":
+                        body = ["return <%s>(%s)" % (dt, e)]
+                    else:
+                        pre, body = ["cdef %s one = 1" % dt], ["return (%s) * one" % e]
+                    if wth:
+                        body = wth + ["    " + b for b in body]
+                    L += deco + ["cdef object %s(%s):" % (fn, args)] + ["    " + b for b in pre + body]
+                out.append({"fn": fn, "sig": (at, bt), "lines": L, "c": ccls, "how": how, "an": an, "ak": ak, "at": at,
+                            "bn": bn, "bk": bk, "bt": bt, "bv": bv, "dn": dn, "dt": dt, "cx": cx, "d": dcls})
+    return out
+
+
+def coerce_module(funcs, cp, how):
+    """module text + line -> function map + dispatcher names"""
+    L = []
+    if how == "header":
+        L.append("# cython: cpow=%s" % cp)
+    L += ["cimport cython", "cdef int id_int(int x): return x", "cdef double id_double(double x): return x"]
+    lines = {}
+    sigs = {}
+    for i, f in enumerate(funcs):
+        st = len(L) + 1
+        L += f["lines"]
+        for k in range(st, len(L) + 1):
+            lines[k] = f["fn"]
+        sigs.setdefault(f["sig"], []).append((i, f["fn"]))
+    disp = {}
+    for n, ((at, bt), fl) in enumerate(sorted(sigs.items(), key=repr)):
+        dn = "disp%d" % n
+        disp[(at, bt)] = dn
+        args = _arg(at, "a") + ("" if bt is None else ", " + _arg(bt, "b"))
+        L += ["def %s(int i, %s):" % (dn, args)]
+        for i, fn in fl:
+            L += ["    if i == %d: return %s(a%s)" % (i, fn, "" if bt is None else ", b")]
+        L += ["    raise KeyError(i)"]
+    return "\n".join(L) + "\n", lines, disp
+
+
+DUMP_SCRIPT = r"""
+import sys, os, io, json, re
+import pyload; pyload.install()
+from Cython.Compiler import Main, Options, Errors, Pipeline
+from Cython.Compiler.Visitor import TreeVisitor
+from Cython.Compiler.ParseTreeTransforms import AnalyseExpressionsTransform
+pyload.assert_sources()
+spec = json.load(sys.stdin)
+
+class Dump(TreeVisitor):
+    def __init__(self):
+        super().__init__(); self.rows = {}; self.fn = None
+    def visit_FuncDefNode(self, node):
+        old = self.fn; self.fn = node.entry.name
+        self.visitchildren(node); self.fn = old
+    def visit_PowNode(self, node):
+        self.rows.setdefault(self.fn, []).append(str(node.type))
+        self.visitchildren(node)
+    def visit_Node(self, node):
+        self.visitchildren(node)
+
+path = spec["path"]
+directives = dict(Options.get_directive_defaults()); directives["language_level"] = 3
+opts = Main.CompilationOptions(Main.default_options, compiler_directives=directives, output_file=os.path.splitext(path)[0] + ".c")
+ctx = Main.Context.from_options(opts)
+src = Main.CompilationSource(Main.FileSourceDescriptor(path, path), spec["name"], os.getcwd())
+result = Main.create_default_resultobj(src, opts)
+pipeline = Pipeline.create_pyx_pipeline(ctx, opts, result)
+cut = [i for i, p in enumerate(pipeline) if isinstance(p, AnalyseExpressionsTransform)][0]
+d = Dump()
+def dump(node):
+    d.visit(node); return node
+err = io.StringIO(); old = sys.stderr; sys.stderr = err
+try:
+    Errors.init_thread(); Errors.LEVEL = 0
+    Errors.open_listing_file(None, echo_to_stderr=True)
+    e, data = Pipeline.run_pipeline(pipeline[:cut + 1] + [dump], src)
+finally:
+    sys.stderr = old
+errs = []
+for m in re.finditer(r"^(warning: )?([^\n:]+):(\d+):\d+: (.*)$", err.getvalue(), re.M):
+    errs.append([int(m.group(3)), bool(m.group(1)), m.group(4)[:160]])
+print(json.dumps({"rows": d.rows, "errs": errs, "exc": repr(e) if e is not None else None,
+                  "tail": err.getvalue()[-600:] if (e is not None and not errs) else ""}))
+"""
+
+
+def rcat2(t):
+    r = rcat(t)
+    if r != "ROther":
+        return r
+    if t.endswith("complex"):
+        return "RComplex"
+    if t.endswith("object"):
+        return "RObj"
+    return "ROther"
+
+
+def dump_coerced(workdir, quick):
+    """run the analysis phase of the compiler under test over one module per cpow configuration"""
+    import concurrent.futures as cf
+    os.makedirs(workdir, exist_ok=True)
+    jobs = []
+    for n, (ccls, cp, how) in enumerate(C_CFG):
+        funcs = coerce_funcs(ccls, cp, how, quick)
+        src, lines, disp = coerce_module(funcs, cp, how)
+        name = "c07_cd%d" % n
+        wd = os.path.join(workdir, name)
+        os.makedirs(wd, exist_ok=True)
+        path = os.path.join(wd, name + ".pyx")
+        with open(path, "w") as f:
+            f.write(src)
+        jobs.append((name, wd, path, funcs, lines, (ccls, cp, how)))
+
+    def one(j):
+        name, wd, path, funcs, lines, cfg = j
+        r = cybuild.run_script(DUMP_SCRIPT, wd, {"path": path, "name": name}, timeout=900)
+        return r
+    with cf.ThreadPoolExecutor(max_workers=len(jobs)) as ex:
+        results = list(ex.map(one, jobs))
+    entries, problems = [], []
+    for (name, wd, path, funcs, lines, cfg), r in zip(jobs, results):
+        js = r["json"]
+        if not js or js.get("exc") and not js.get("errs"):
+            problems.append((name, (r["err"] or "")[-600:] + str(js and js.get("tail"))))
+            continue
+        errs, warns = {}, {}
+        for ln, w, msg in js["errs"]:
+            fn = lines.get(ln)
+            if fn is None:
+                problems.append((name, "message outside generated functions: line %d %s" % (ln, msg)))
+                continue
+            (warns if w else errs).setdefault(fn, []).append(msg)
+        for f in funcs:
+            ts = js["rows"].get(f["fn"]) or js["rows"].get("h" + f["fn"]) or []
+            e = dict(f)
+            e["mod"] = name
+            e["raw"] = ts[0] if len(ts) == 1 else "?%r" % (ts,)
+            e["r"] = rcat2(ts[0]) if len(ts) == 1 else "ROther"
+            e["errs"] = errs.get(f["fn"], []) + errs.get("h" + f["fn"], [])
+            e["rejected"] = bool(e["errs"])
+            ws = warns.get(f["fn"], []) + warns.get("h" + f["fn"], [])
+            e["warned"] = any("as if 'cython.cpow(True)'" in w for w in ws)
+            entries.append(e)
+    return entries, problems
+
+
+def coq_opnd(ak):
+    return {"AComplex": "OComplex", "AObj": "OObj", "APosFloat": "OPosFloat", "APosIntConst": "OPosIntConst"}.get(ak, "(OC %s)" % ak)
+
+
+def coq_ekind(bk):
+    return {"BComplexConst": "EComplexConst", "BRuntimeComplex": "ERuntimeComplex", "BObj": "EObj"}.get(bk, "(EC %s)" % bk)
+
+
+# ---- independent transcription of the documented rule (property oracle for the coerced table):
+# docs/src/userguide/cpow_table.csv for the type, the PowNode.coerce_to comment for `unset`
+def py_pow_type(cpow, a, b):
+    if a == "AObj" or b == "BObj":
+        return "RObj"
+    if a == "AComplex" or b in ("BComplexConst", "BRuntimeComplex"):
+        return "RComplex"
+    a_int = a in ("AInt", "AUInt", "APosIntConst")
+    b_int = b in ("BNegIntConst", "BNonNegIntConst", "BRuntimeSignedInt", "BRuntimeUnsignedInt")
+    if a_int and b == "BNegIntConst":
+        return "RFloat"
+    if a_int and b in ("BNonNegIntConst", "BRuntimeUnsignedInt"):
+        return "RInt"
+    if a_int and b == "BRuntimeSignedInt":
+        return "RInt" if cpow else "RFloat"
+    if b_int:
+        return "RFloat"
+    if cpow or a in ("AUInt", "APosFloat", "APosIntConst") or b == "BIntegralFloatConst":      # base known >= 0 / exponent integral
+        return "RFloat"
+    return "RSoftComplex"
+
+
+def py_assignable(r, d):
+    if d == "DCInt":
+        return r in ("RInt", "RObj")
+    if d == "DCFloat":
+        return r in ("RInt", "RFloat", "RSoftComplex", "RObj")
+    return r != "ROther"
+
+
+def py_coerced(c, a, b, d):
+    """-> (type, rejected, warned)"""
+    if c != "CUnset":
+        r = py_pow_type(c == "CTrue", a, b)
+        return (r, not py_assignable(r, d), False)
+    r0, r1 = py_pow_type(False, a, b), py_pow_type(True, a, b)
+    c_real = a in ("AInt", "AUInt", "AFloat", "APosFloat", "APosIntConst") and r0 in ("RInt", "RFloat", "RSoftComplex")
+    fb = False
+    if d in ("DCInt", "DCFloat") and c_real and r0 != r1:
+        fb = r0 == "RSoftComplex" or (d == "DCInt" and r1 == "RInt" and a != "APosIntConst")
+    r = r1 if fb else r0
+    return (r, not py_assignable(r, d), fb)
+
+
 def pre_coq(ctx):
     wd = os.path.join(ctx.workdir, "types")
+    quick = ctx.tier == "quick"
+    import threading
+    box = {}
+
+    def bg():
+        try:
+            box["dump"] = dump_coerced(os.path.join(ctx.workdir, "coerce"), quick)
+        except Exception as e:  # noqa
+            box["dump_exc"] = repr(e)
+    th = threading.Thread(target=bg)
+    th.start()
     table = dump_table(wd)
+    _t(ctx, 'typeof table built')
+    th.join()
+    _t(ctx, 'coerced dump done')
     ctx._c07_table = table
+    ctx._c07_dump = box
+    entries = box.get("dump", ([], []))[0]
+    crows = sorted({(e["c"], coq_opnd(e["ak"]), coq_ekind(e["bk"]), e["d"], e["r"], e["rejected"], e["warned"]) for e in entries})
+    # run-time modules of the accepted functions are built while Coq runs
+    start_runtime_builds(ctx, entries)
     body = ";\n  ".join("(%s, %s, %s, %s)" % ("true" if cp else "false", ak, bk, rc) for _, cp, ak, bk, rc, _ in table)
+    cbody = ";\n  ".join("(%s, %s, %s, %s, (%s, %s, %s))" % (c, a, b, d, r, "true" if rej else "false", "true" if w else "false")
+                         for c, a, b, d, r, rej, w in crows)
     txt = ("(* generated by props/C07.py from the running compiler: cython.typeof(a ** b) *)\n"
            "From Coq Require Import List Bool.\nFrom CyVerif Require Import Model.M_PowDoc.\nImport ListNotations.\n"
-           "Definition pow_rows : list (bool * atype * bkind * rtype) := [\n  %s ].\n" % body)
+           "Definition pow_rows : list (bool * atype * bkind * rtype) := [\n  %s ].\n"
+           "(* analysed tree of the running compiler: (cpow, a, b, destination, (PowNode type, rejected, warned)),\n"
+           "   distinct rows over all generated functions *)\n"
+           "Definition pow_crows : list crow := [\n  %s ].\n" % (body, cbody))
     p = os.path.join(framework.COQ, "theories", "Gen", "Gen_Pow.v")
     os.makedirs(os.path.dirname(p), exist_ok=True)
     if not os.path.exists(p) or open(p).read() != txt:
@@ -132,6 +459,9 @@ def run(ctx):
         if not doc_allows(cp, ak, bk, rc):
             klass = "cpow_true_negative_int_constant_not_double" if (cp and bk == "BNegIntConst" and ak != "AFloat") else "result_type_outside_table"
             ctx.fail(klass, inp, raw, "a result type allowed by the documented cpow table")
+    # ---- destination rule: coerced table + run-time delivery
+    run_coerced(ctx)
+    _t(ctx, 'run_coerced done')
     # ---- integer helper values
     wd = os.path.join(ctx.workdir, "vals")
     try:
@@ -266,6 +596,357 @@ def run(ctx):
                 elif fn == "pf_dbl_dbl" and args[0] == 0 and args[1] == 0:
                     klass = "softcomplex_zero_pow_zero"
                 ctx.fail(klass, inp, got, repr(pv))
+
+
+# ---- run-time side of the destination rule --------------------------------------------------------
+Q_PAIRS = ({(a, b) for a in ("int", "double") for b in ("negc", "posc", "halfc", "posfic", "rint", "ruint", "rdouble")} |
+           {("uint", "rdouble"), ("uint", "rint"), ("dcplx", "rint"), ("dcplx", "rdouble"), ("obj", "rint"), ("obj", "robj"),
+            ("double", "rdcplx"), ("int", "robj"), ("uint", "halfc"), ("cpos3", "rdouble"), ("cpos3", "rint"),
+            ("cpos2f", "rdouble"), ("cpos2f", "rint")})
+Q_PAIRS_SMALL = {("double", "rdouble"), ("int", "rint"), ("int", "rdouble"), ("double", "halfc")}
+C_WIDTH = {"char": (8, True), "signed char": (8, True), "unsigned char": (8, False), "short": (16, True), "unsigned short": (16, False),
+           "int": (32, True), "unsigned int": (32, False), "long": (64, True), "unsigned long": (64, False),
+           "long long": (64, True), "unsigned long long": (64, False), "Py_ssize_t": (64, True), "size_t": (64, False)}
+VALS_A = {"AInt": [-3, -2, -1, 0, 1, 2, 3, 7], "AUInt": [0, 1, 2, 3, 7],
+          "AFloat": [-8.0, -1.0, -0.5, 0.0, 0.5, 2.0, 4.0, 9.0],
+          "APosFloat": [2.0], "APosIntConst": [3], "AComplex": ["1j", "(-2+0j)", "(1.5+0.5j)", "(2+0j)"], "AObj": ["2", "-2", "0", "2.0", "-8.0", "(1+1j)"]}
+VALS_B = {"BRuntimeSignedInt": [-2, -1, 0, 1, 2, 3, 5], "BRuntimeUnsignedInt": [0, 1, 2, 3, 5],
+          "BRuntimeFloat": [-1.0, -0.5, 0.0, 0.5, 1.5, 2.0, 3.0], "BRuntimeComplex": ["(2+0j)", "0.5j", "(0.5+0j)"],
+          "BObj": ["2", "-1", "0.5", "3"]}
+RT_SETUP = r"""
+def sweep(mod, disp, idx, As, Bs):
+    f = getattr(mod, disp)
+    out = []
+    for a in As:
+        for b in (Bs if Bs is not None else [None]):
+            try:
+                out.append(f(idx, a) if Bs is None else f(idx, a, b))
+            except BaseException as e:
+                out.append(["!exc", type(e).__name__])
+    return out
+"""
+
+
+def rt_select(entries, quick):
+    sel = {}
+    for e in entries:
+        if e["rejected"] or e["r"] == "ROther":
+            continue
+        if quick:
+            pairs = Q_PAIRS if e["how"] in ("unset", "deco") else Q_PAIRS_SMALL
+            if (e["an"], e["bn"]) not in pairs:
+                continue
+        if e["an"] == "pyint" and e["bn"] == "robj" and quick:
+            continue
+        sel.setdefault(e["mod"], []).append(e)
+    return sel
+
+
+def start_runtime_builds(ctx, entries):
+    import threading
+    quick = ctx.tier == "quick"
+    sel = rt_select(entries, quick)
+    specs, info = [], []
+    for n, (ccls, cp, how) in enumerate(C_CFG):
+        funcs = sel.get("c07_cd%d" % n, [])
+        if not funcs:
+            continue
+        src, lines, disp = coerce_module(funcs, cp, how)
+        name = "c07_rt%d" % n
+        specs.append(dict(name=name, source=src, workdir=os.path.join(ctx.workdir, "rt"), cflags=["-O0"]))
+        info.append((name, funcs, disp))
+    box = {"info": info}
+
+    def bg():
+        try:
+            box["built"] = cybuild.build_many(specs, jobs=7)
+        except Exception as e:  # noqa
+            box["exc"] = repr(e)
+    th = threading.Thread(target=bg)
+    th.start()
+    ctx._c07_rt = (th, box)
+
+
+def _approx(g, x, tol):
+    if x != x:
+        return g != g
+    if g != g:
+        return False
+    if x in (float("inf"), float("-inf")) or g in (float("inf"), float("-inf")):
+        return g == x
+    return g == x or abs(g - x) <= tol * max(abs(x), 1e-300)
+
+
+def _wrapw(v, w, sg):
+    v &= (1 << w) - 1
+    return v - (1 << w) if sg and v >> (w - 1) else v
+
+
+def _pyval(cls, ctype, v):
+    """the Python value a C operand of this class carries"""
+    if cls in ("AInt", "AUInt", "APosIntConst", "BRuntimeSignedInt", "BRuntimeUnsignedInt", "BNegIntConst", "BNonNegIntConst"):
+        return int(v)
+    if cls in ("AFloat", "APosFloat", "BRuntimeFloat", "BFloatConst", "BIntegralFloatConst"):
+        return float(v)
+    return eval(v) if isinstance(v, str) else v
+
+
+def expected_delivery(e, x, y):
+    """-> (kind, value) judged from the DOCUMENTED type (py_coerced) and CPython's value.
+    kind: 'skip' | 'exact' (type+value) | 'float' | 'complex' | 'exc'.  Independent of the Coq model."""
+    r, rej, _w = py_coerced(e["c"], e["ak"], e["bk"], e["d"])
+    d = e["d"]
+    if rej or d in ("DCastInt", "DCastFloat") and r in ("RObj", "RComplex", "RSoftComplex"):
+        return ("skip", None)
+    tolf = 1e-6 if ("float" in (e["at"], e["bt"]) or e["dt"] == "float") else 1e-12
+    if r == "RInt":
+        w, sg = C_WIDTH.get(e["raw"], (None, None))
+        if w is None:
+            return ("skip", None)
+        if not sg:
+            # both operands are converted to the unsigned result type; arithmetic is modular
+            v = pow(x % (1 << w), y % (1 << w), 1 << w)
+        elif y < 0:
+            v = 0
+        else:
+            v = x ** y
+            if not (-(1 << (w - 1)) <= v < (1 << (w - 1))):
+                return ("skip", None)          # signed overflow: UB
+        if d in ("DCInt", "DCastInt"):
+            dw, dsg = C_WIDTH[e["dt"]]
+            return ("exact", _wrapw(v, dw, dsg))
+        if d in ("DCFloat", "DCastFloat", "DArithFloat"):
+            return ("float", (float(v), tolf))
+        if d == "DCComplex":
+            return ("complex", (complex(v), tolf))
+        return ("exact", v)
+    if r in ("RFloat", "RSoftComplex"):
+        try:
+            pv = float(x) ** float(y)
+        except (ZeroDivisionError, OverflowError):
+            return ("skip", None)               # C arithmetic yields inf here, documented C behaviour
+        if isinstance(pv, complex):
+            if r == "RFloat":
+                pv = float("nan")               # documented: NaN if the result would be complex
+            elif d == "DCFloat":
+                return ("exc", "TypeError")
+            else:
+                return ("complex", (pv, tolf))
+        if d == "DCComplex":
+            return ("complex", (complex(pv, 0.0), tolf))
+        if d == "DCastInt":
+            if pv != pv or abs(pv) >= 2 ** 31 or pv != int(pv):
+                return ("skip", None)
+            return ("exact", int(pv))
+        return ("float", (pv, tolf))
+    if r == "RComplex":
+        try:
+            pv = complex(x) ** complex(y)
+        except (ZeroDivisionError, OverflowError):
+            return ("skip", None)
+        return ("complex", (pv, max(tolf, 1e-9)))
+    if r == "RObj":
+        try:
+            pv = x ** y
+            if d == "DArithInt":
+                pv = pv * 1
+            elif d == "DArithFloat":
+                pv = pv * 1.0
+        except BaseException as ex:  # noqa
+            return ("exc", type(ex).__name__)
+        if d == "DCInt":
+            if type(pv) is not int:
+                return ("skip", None) if isinstance(pv, float) else ("exc", "TypeError")
+            dw, dsg = C_WIDTH[e["dt"]]
+            return ("exact", pv) if -(1 << (dw - 1)) <= pv < (1 << (dw - 1)) else ("exc", "OverflowError")
+        if d == "DCFloat":
+            if isinstance(pv, complex):
+                return ("exc", "TypeError")
+            return ("float", (float(pv), tolf))
+        if d == "DCComplex":
+            return ("complex", (complex(pv), 1e-15))
+        return ("exact", pv)
+    return ("skip", None)
+
+
+def got_matches(got, exp):
+    kind, v = exp
+    if kind == "exc":
+        return got == ["!exc", v] or got == {"t": "list", "r": [{"t": "str", "r": "'!exc'"}, {"t": "str", "r": repr(v)}]}
+    if not isinstance(got, dict) or "t" not in got:
+        return False
+    if kind == "exact":
+        c = cybuild_canon(v)
+        return (got["t"], got["r"]) == (c["t"], c["r"])
+    if kind == "float":
+        if got["t"] != "float":
+            return False
+        g = float("nan") if got["r"] == "nan" else float.fromhex(got["r"])
+        return _approx(g, v[0], v[1])
+    if kind == "complex":
+        if got["t"] != "complex":
+            return False
+        gr, gi = [float("nan") if z == "nan" else float.fromhex(z) for z in got["r"]]
+        x, tol = v
+        scale = max(abs(x), 1.0) if abs(x) == abs(x) and abs(x) != float("inf") else 1.0
+        ok = lambda g, t: (g != g) == (t != t) and (g == t or t != t or abs(g - t) <= tol * scale)   # noqa
+        return ok(gr, x.real) and ok(gi, x.imag)
+    return True
+
+
+def got_delivery(got):
+    """observed delivery class of one result"""
+    if isinstance(got, dict) and got.get("t") == "list":
+        return "V" + got["r"][1]["r"].strip("'")
+    return {"int": "int", "float": "float", "complex": "complex"}.get(got.get("t"), "?") if isinstance(got, dict) else "?"
+
+
+def coerce_class(e, x, y, exp):
+    """stable class names for failing (function, operands)"""
+    if e["how"] == "with" and e["cx"] == "infer" and e["c"] == "CTrue":
+        # the local's type is inferred with the function-level directive (unset), not the block's
+        if py_pow_type(True, e["ak"], e["bk"]) != py_pow_type(False, e["ak"], e["bk"]):
+            return "with_block_cpow_ignored_by_local_type_inference"
+    if py_coerced(e["c"], e["ak"], e["bk"], e["d"])[0] == "RSoftComplex":
+        try:
+            fx, fy = float(x), float(y)
+            if fx < 0 and fy == int(fy):
+                return "softcomplex_negative_base_integral_exponent"
+            if fx == 0 and fy == 0:
+                return "softcomplex_zero_pow_zero"
+        except Exception:  # noqa
+            pass
+    return "coerced_pow_value_differs"
+
+
+def describe(e):
+    return {"module_header": "# cython: cpow=%s" % (e["c"] == "CTrue") if e["how"] == "header" else "",
+            "source": "\n".join(e["lines"]), "cpow": e["c"], "set_by": e["how"], "a": e["ak"], "b": e["bk"], "dest": e["d"],
+            "context": e["cx"]}
+
+
+FX_PYINT = os.environ.get("C07_FX_PYINT", "0") == "1"     # flip after proposed_fixes/C07-pyint_pow_result_typed_int.diff
+
+
+def run_coerced(ctx):
+    quick = ctx.tier == "quick"
+    box = getattr(ctx, "_c07_dump", None)
+    if box is None:
+        box = {}
+        try:
+            box["dump"] = dump_coerced(os.path.join(ctx.workdir, "coerce"), quick)
+        except Exception as e:  # noqa
+            box["dump_exc"] = repr(e)
+    if "dump" not in box:
+        ctx.corr_break("coerced-table dump", "analysis-phase dump of the generated modules", box.get("dump_exc"), "a table")
+        return
+    entries, problems = box["dump"]
+    for name, msg in problems:
+        ctx.corr_break("coerced-table dump", name, msg, "every compiler message lies inside a generated function")
+    if not hasattr(ctx, "_c07_rt"):
+        start_runtime_builds(ctx, entries)
+    _t(ctx, 'run_coerced start')
+    model = ctx.model("intpow")
+    # ---- static: every function against the documented rule (oracle) and the extracted model (tie)
+    keys = sorted({(e["c"], e["ak"], e["bk"], e["d"]) for e in entries})
+    mres = dict(zip(keys, model.batch(["coerced %s %s %s %s" % k for k in keys])))
+    dres = dict(zip(keys, model.batch(["doc_coerced %s %s %s %s" % k for k in keys])))
+    nstatic = 0
+    for e in entries:
+        k = (e["c"], e["ak"], e["bk"], e["d"])
+        inp = describe(e)
+        ctx.case("coerced/%s/%s/%s" % (e["c"], e["how"], e["cx"]), inp, sig=(e["mod"], e["fn"]))
+        obs = (e["r"], e["rejected"], e["warned"])
+        exp = py_coerced(*k)
+        obs_s = "%s %d %d" % (e["r"], e["rejected"], e["warned"])
+        if obs != exp:
+            nstatic += 1
+        if obs != exp and nstatic <= 15:       # leave room in the failure list for run-time witnesses
+            ctx.fail("coerced_pow_type_outside_rules", inp,
+                     {"pow_node_type": e["raw"], "rejected": e["rejected"], "errors": e["errs"][:2], "fallback_warning": e["warned"]},
+                     {"type": exp[0], "rejected": exp[1], "fallback_warning": exp[2]},
+                     note="type of the power node after analysis / compile error / unset-fallback warning")
+        if mres[k] != obs_s:
+            ctx.corr_break("powdoc:pow_coerced", inp, obs_s, mres[k])
+        if dres[k] != mres[k]:
+            ctx.corr_break("powdoc:doc_coerced-vs-pow_coerced", inp, dres[k], mres[k])
+    if nstatic > 15:
+        ctx.note("%d functions deviate from the documented destination rule (first 15 reported)" % nstatic)
+    ctx.extra["coerced_table"] = {"functions": len(entries), "distinct_rows": len({(k, e["r"], e["rejected"], e["warned"]) for e in entries for k in [(e["c"], e["ak"], e["bk"], e["d"])]}),
+                                  "rejected": sum(1 for e in entries if e["rejected"]), "fallback_warned": sum(1 for e in entries if e["warned"])}
+    # ---- run time
+    _t(ctx, 'static done')
+    th, rbox = ctx._c07_rt
+    th.join()
+    _t(ctx, 'rt builds joined')
+    if "built" not in rbox:
+        ctx.corr_break("build c07_rt", "run-time modules", rbox.get("exc"), "modules build")
+        return
+    wd = os.path.join(ctx.workdir, "rt")
+    cases, meta = [], []
+    for (name, funcs, disp), (so, err) in zip(rbox["info"], rbox["built"]):
+        if so is None:
+            ctx.corr_break("build " + name, {"functions": len(funcs)}, str(err)[:1500], "functions accepted by the analysis phase compile to C and build")
+            continue
+        for i, e in enumerate(funcs):
+            As = VALS_A[e["ak"]]
+            Bs = VALS_B[e["bk"]] if e["bt"] is not None else None
+            if e["an"] == "pyint":
+                As = ["2", "-2", "0", "7"]
+            if e["an"] in C_ACONST:
+                As = C_ACONST[e["an"]][1]
+            lit = lambda vs: None if vs is None else {"py": "[%s]" % ", ".join(str(v) for v in vs)}   # noqa
+            groups = [Bs]
+            if e["an"] == "pyint" and e["bk"] == "BRuntimeSignedInt":
+                groups = [[v for v in Bs if v >= 0], [v for v in Bs if v < 0]]     # isolate the known crash family
+            for g in groups:
+                cases.append(["sweep", [{"py": name}, disp[e["sig"]], i, lit(As), lit(g)]])
+                meta.append((e, As, g))
+    names = sorted({c[1][0]["py"] for c in cases})
+    res = cybuild.call_cases(wd, cases, setup="import %s\n%s" % (", ".join(names), RT_SETUP), alarm=30) if cases else []
+    _t(ctx, 'rt calls done')
+    dq, dmeta = [], []
+    for (e, As, Bs), r in zip(meta, res):
+        inp0 = describe(e)
+        if "e" in r or r.get("t") != "list":
+            if (r.get("e") == "CRASH" and e["an"] == "pyint" and not FX_PYINT
+                    and (e["bk"] == "BNegIntConst" or (e["bk"] == "BRuntimeSignedInt" and Bs and min(Bs) < 0))):
+                # Python int ** (possibly negative) int is typed `int object`; int-specialised code then reads a float
+                ctx.fail("pyint_pow_result_typed_int", dict(inp0, a_values=As, b_values=Bs), r, "CPython values")
+                continue
+            ctx.corr_break("coerced run", inp0, r, "a list of results")
+            continue
+        pairs = [(a, b) for a in As for b in (Bs if Bs is not None else [e["bv"]])]
+        for (a, b), got in zip(pairs, r["r"]):
+            x, y = _pyval(e["ak"], e["at"], a), _pyval(e["bk"], e["bt"], b)
+            inp = dict(inp0, a_value=repr(x), b_value=repr(y))
+            exp = expected_delivery(e, x, y)
+            ctx.case("coerced-run/%s/%s/%s" % (e["c"], e["d"], py_coerced(e["c"], e["ak"], e["bk"], e["d"])[0]), inp,
+                     sig=(e["mod"], e["fn"], repr(x), repr(y)))
+            if exp[0] == "skip":
+                continue
+            bad = not got_matches(got, exp)
+            if bad:
+                ctx.fail(coerce_class(e, x, y, exp), inp, got, {"kind": exp[0], "value": repr(exp[1])},
+                         note="documented result type + CPython value, delivered to the destination")
+            # tie with the extracted model: delivery class for the OBSERVED static type
+            try:
+                pv = (complex(x) ** complex(y)) if e["r"] == "RComplex" else (x ** y if e["r"] == "RObj" else float(x) ** float(y))
+                real = not isinstance(pv, complex)
+            except Exception:  # noqa
+                continue
+            if not bad:
+                dq.append("deliver %s %s %d" % (e["r"], e["d"], real))
+                dmeta.append((inp, got, exp))
+    for q, m, (inp, got, exp) in zip(dq, model.batch(dq) if dq else [], dmeta):
+        gd = got_delivery(got)
+        okd = {"VInt": gd in ("int", "float", "complex"), "VFloat": gd in ("float", "complex", "int"),
+               "VPyReal": gd in ("float", "int"), "VPyComplex": gd == "complex", "VTypeError": gd == "VTypeError",
+               "VNoValue": True}.get(m, False)
+        if m == "VNoValue" and exp[0] not in ("skip",) and q.split()[2] not in ("DCastInt", "DCastFloat"):
+            okd = False
+        if not okd:
+            ctx.corr_break("powdoc:deliver", inp, got, m + " for " + q)
 
 
 def cybuild_canon(v):
